@@ -9,6 +9,14 @@ TB = ("trusted base: rustc's MIR construction and Instance resolution for the re
       "mir-opt-level 0, overflow checks on), the fact extractor /verif/driver, std/rpds/arcstr behaving as documented")
 
 CLAIMS = {
+ 'C01': dict(
+   technique="MIR provenance of jump encodings and placeholder origins, flow-variant producer/consumer matching, arm-wise path analysis of the VM (custom extractor, Python rules)",
+   text=("Static, structural necessary conditions; equivalence of compiled code with a reference semantics for all nestings is translation "
+         "validation and NOT decided. Decided: the jump codec encodes the distance on every path (zero stays zero) and decodes by addition; "
+         "every placeholder jump is recorded in a pending flow or patched in place, every origin-carrying flow has a patching consumer and "
+         "patchable opcode kinds; every loop closer handles a pending Break and only the counted-loop closer builds Opcode::Break; in the VM, Do/"
+         "Loop/Break/Call/Ret push/pop the loop/return stack exactly on the paths that warrant it and no other arm touches them."),
+   ref='§3 C01'),
  'C04': dict(
    technique="ownership/who-may-call analysis of the single mutable buffer accessor + dominance of buffer normalisation over length-relative and accumulating writes (MIR)",
    text=("Static, two structural clauses; equality of results with a bit-sequence model (alignment arithmetic of cut_bits/Iter8/eq_with/"
